@@ -31,6 +31,29 @@ def ncells(shape):
     return {"scalar": 1, "g2": 2, "g22": 4, "g1": 1, "g213": 6}[shape]
 
 
+TINY, OFFSET = 2.0 ** -30, 2.0 ** 17
+
+
+def _magnify(case, rng):
+    """magnitude families (exact dyadic payloads, so the model's rationals stay exact): very small values (k * 2^-30, e.g.
+    conductivities in m/s) and small changes on a large level (2^17 + k / 8, e.g. a pressure in Pa) — differences far below
+    / relative changes near the default tolerances of `np.isclose` / `np.allclose`"""
+    r = rng.random()
+    mag = "tiny" if r < 0.1 else "offset" if r < 0.2 else None
+    if mag is None:
+        return case
+    for ev in case["events"]:
+        if ev[0] == "push":
+            ev[2] = [(v * TINY if mag == "tiny" else OFFSET + v / 8.0) for v in ev[2]]
+    case["mag"] = mag
+    return case
+
+
+def _unit(case):
+    """the magnitude answers are compared at"""
+    return TINY if case.get("mag") == "tiny" else 1.0
+
+
 def gen_case(rng, max_events=40):
     kind = rng.choice(KINDS)
     pos = rng.randrange(0, 9)
@@ -79,7 +102,7 @@ def gen_case(rng, max_events=40):
         events.append(["pull", tt])
         if pubs[0] <= tt <= pubs[-1]:
             last = tt
-    return {"kind": kind, "pos": [pos, 8], "shape": shape, "events": events}
+    return _magnify({"kind": kind, "pos": [pos, 8], "shape": shape, "events": events}, rng)
 
 
 def make_adapter(case, no_evict=False):
@@ -129,18 +152,18 @@ def model_request(case):
     return {"op": "c11", "kind": case["kind"], "pos": case["pos"], "events": evs}
 
 
-def same_answer(a, m):
-    """implementation answer (floats) against the model's exact rationals"""
+def same_answer(a, m, u=1.0):
+    """implementation answer (floats) against the model's exact rationals (compared at the magnitude `u` of the payloads)"""
     if a is None or m is None:
         return a is None and m is None
     if "err" in a or "err" in m:
         return a.get("err") == m.get("err")
-    return len(a["ok"]) == len(m["ok"]) and all(close(x, q[0] / q[1]) for x, q in zip(a["ok"], m["ok"]))
+    return len(a["ok"]) == len(m["ok"]) and all(close(x / u, q[0] / q[1] / u) for x, q in zip(a["ok"], m["ok"]))
 
 
 def compare(case, impl, model):
     for i, ev in enumerate(case["events"]):
-        if not same_answer(impl["answers"][i], model["impl"][i]):
+        if not same_answer(impl["answers"][i], model["impl"][i], _unit(case)):
             return {"event": i, "impl": impl["answers"][i], "model": model["impl"][i]}
         if impl["lens"][i] != model["lens"][i]:
             return {"event": i, "impl_len": impl["lens"][i], "model_len": model["lens"][i]}
@@ -191,7 +214,7 @@ def oracle(case, impl):
         if "ok" not in a:
             return ("a request inside the published range must be served", {"event": i, "time": t, "got": a})
         exp = [definition(kind, pos, hist, t, c) for c in range(nc)]
-        if len(a["ok"]) != nc or not all(close(x, float(q)) for x, q in zip(a["ok"], exp)):
+        if len(a["ok"]) != nc or not all(close(x / _unit(case), float(q) / _unit(case)) for x, q in zip(a["ok"], exp)):
             return (f"{kind} interpolation must equal its definition on the full publication history",
                     {"event": i, "time": t, "got": a["ok"], "expected": [str(q) for q in exp]})
         pub = [e for e in hist if e[0] == t]
